@@ -242,6 +242,11 @@ class C07(Prop):
             p = gen.payload(rng, n)
             out.append(Case("encbx %d %s" % (cap, hx(p)), "encb-giant-array", dict(p=hx(p), cap=cap)))
         out += alloc_failure_cases(rng, 16 if tier == "quick" else 200)
+        # frames whose checksum bytes are 00 00 / 1b 1b / ff ff / ...
+        for sp in gen.SPECIAL_CRC_PAYLOADS:
+            out.append(Case("enci 3 " + hx(sp), "enci-special-crc", dict(p=hx(sp))))
+            out.append(Case("encb - " + hx(sp), "encb-special-crc", dict(p=hx(sp), cap=None)))
+            out.append(Case("encb %d %s" % (len(gen.frame(sp)), hx(sp)), "encb-special-crc", dict(p=hx(sp), cap=len(gen.frame(sp)))))
         # the public Encoder::new over a source that is not fused (yields again after its first None)
         for _ in range(20 if tier == "quick" else 300):
             a = gen.payload(rng, rng.randint(0, 24))
@@ -344,6 +349,9 @@ class C01(Prop):
                 out.append(Case("rd io %s I,x%s,I,I,x%s,I nbnbnb" % (rcap, hx(f[:cut]), hx(f[cut:])), "io-interrupted", dict(rt_rd=hx(p))))
         # payloads beyond 64 KiB and 1 MiB in the growable buffer (no size limit may hide in it); the larger one is not
         # run through the model (suite rtx)
+        for sp in gen.SPECIAL_CRC_PAYLOADS:
+            out.append(Case("rt - %s" % hx(sp), "rt-special-crc", dict(p=hx(sp))))
+            out.append(Case("rt 4 %s" % hx(sp), "rt-special-crc", dict(p=hx(sp))))
         for n in (70000, 65520, 65535):
             p = gen.payload(rng, n)
             if n < 70000:
@@ -1112,6 +1120,15 @@ class C16(Prop):
             kind = rng.choice(["slice", "iter", "io"])
             out.append(Case("rd %s %d x%s,x%s nbnbnbnbnbnb" % (kind, L, hx(gen.frame(m)), hx(gen.frame(q))), "rd-toosmall",
                             dict(rdq=hx(q), rdm=hx(m))))
+        for nz in (252, 253, 254, 255, 256, 257, 258, 510, 511, 512):
+            for head in (b"\x12", b"\x12\x34", b"\x12\x34\x56", b"\x12\x34\x56\x78"):
+                m = head + bytes(nz)
+                L = len(m)
+                if L in gen.CAP_MENU:
+                    out.append(Case("dec %d x%s,x%s" % (L, hx(gen.frame(m)), hx(gen.frame(b"\x07"))), "exact-long-zero-run", dict(m=m, q=b"\x07", N=L, shift=0)))
+        for ml in (2047, 2048, 2049, 4096, 8192):
+            m = gen.payload(rng, ml)
+            out.append(Case("rd eh default x%s rbrb" % hx(gen.frame(m)), "default8k-eh", dict(m=m, N=8192, rd=True, eh=True)))
         for ml in [8190, 8191, 8192, 8193, 8194]:
             for _ in range(2 if tier == "quick" else 10):
                 m = gen.payload(rng, ml)
@@ -1158,6 +1175,8 @@ class C16(Prop):
                 why = None
                 if c.meta.get("rd"):
                     exp = ("M%s;-" % hx(m)) if len(m) <= N else None
+                    if c.meta.get("eh") and exp is not None:
+                        exp = "M%s;IOWouldBlock:0" % hx(m)         # an embedded-hal source blocks at the end, it has no end of input
                     if exp is not None and o != exp:
                         why = "payload of %d bytes not delivered through the %d-byte reader buffer: %s" % (len(m), N, o[:200])
                     if exp is None and (not o.startswith("EO") or "M" in o.split(";")[0]):
@@ -2376,6 +2395,10 @@ class C11(Prop):
                 meth = rng.choice("nN") if kind == "io" else rng.choice("rR")
                 calls = (meth + "b") * base_calls
                 nother = 2 if rng.random() < 0.3 else 1          # also two failing reads in a row
+                if rng.random() < 0.08 and kind == "io":
+                    # twenty failing reads in a row before anything else: twenty reports with count 0, then the stream
+                    evs20 = ",".join(["O"] * 20 + (["x" + hx(s)] if s else []))
+                    out.append(Case("rd io %s %s %s" % (cap, evs20, "nb" * (20 + base_calls)), "other-run", dict(otherrun=20)))
                 ev_full = ",".join(x for x in ["x" + hx(a) if a else ""] + ["O"] * nother + ["x" + hx(b) if b else ""] if x)
                 out.append(Case("rd %s %s %s %s" % (kind, cap, ev_full, calls + "nb" * 0), "other-full", dict(grp=g, role="full", a=a, kind=kind, nother=nother)))
                 out.append(Case("rd %s %s %s %s" % (kind, cap, ("x" + hx(b)) if b else "x.", calls), "other-rest", dict(grp=g, role="rest", kind=kind)))
@@ -2403,6 +2426,13 @@ class C11(Prop):
         for i, c in enumerate(cases):
             if "grp" in c.meta:
                 groups.setdefault(c.meta["grp"], {})[c.meta["role"]] = i
+        for i, c in enumerate(cases):
+            if "otherrun" in c.meta:
+                for prof, o in both(dbg, rel, i):
+                    items = o.split(";")
+                    if items[:20] != ["IOOther:0"] * 20:
+                        bad.append(dict(case=c.line, why="%s build: twenty consecutive read errors were not reported as twenty IoErr(Other, 0): %s" % (prof, items[:22])))
+                        break
         for g, d in groups.items():
             for prof, outs in (("debug", dbg), ("release", rel)):
                 why = None
